@@ -95,33 +95,81 @@ theorem quicFrames_empty_carries (data : List UInt8) (base : Nat) (hrep : base +
     ∃ p, qfBuild [] data base = .ok p ∧ carries data base [p] = true := by
   have plan : PlanOk [QFrame.crypto 0 0] data.length := by
     refine ⟨?_, ⟨_, List.mem_singleton.mpr rfl, rfl⟩, ?_⟩
-    · intro f hf; simp only [List.mem_singleton] at hf; subst hf; simp [rlen]
-    · intro i hi; exact ⟨0, 0, by simp, by omega, by simp [rlen]; omega⟩
+    · intro f hf; simp only [List.mem_singleton] at hf; subst hf; simp
+    · intro i hi; exact ⟨0, 0, by simp, by omega, by simp [rlen, rstart]; omega⟩
   obtain ⟨p, hp, hc⟩ := qfBuild_of_plan (base := base) plan hrep
   exact ⟨p, by simpa [qfBuild] using hp, hc⟩
 
-/-- exact panic condition of one CRYPTO entry (outside this property's quantifier: the caller has to
-    hand `QUICFrames` a layout that tiles its slice) -/
-theorem quicFrames_nontiling_panics (low : Int) (data : List UInt8) (base : Nat) (off len : Int)
-    (hlow : low ≤ off) :
-    buildOne low data base (.crypto off len) = none ↔
-      (maxVarInt8 : Int) < (off + (base : Int)) % u64 ∨ rlen low data.length off len < 0 ∨
-        (maxVarInt8 : Int) < rlen low data.length off len ∨ (data.length : Int) < off - low :=
-  buildOne_crypto_none_iff low data base off len hlow
+/-- the layout `build` works on: no frames means the single CRYPTO frame `{0,0}` -/
+def layoutOf (qfs : List QFrame) : List QFrame := if qfs.isEmpty then [QFrame.crypto 0 0] else qfs
 
-/-- … and exact zero-extension: an entry reaching beyond the slice yields a frame whose tail is zeros -/
-theorem quicFrames_nontiling_zero_extends (low : Int) (data : List UInt8) (base : Nat) (off len : Int)
-    (a b : List UInt8) (hlow : low ≤ off) (hs : off - low ≤ data.length) (hlen : 0 < len)
-    (ha : appendVarint ((off + (base : Int)) % u64).toNat = some a) (hb : appendVarint len.toNat = some b)
-    (hbeyond : (data.length : Int) < off - low + len) :
-    buildOne low data base (.crypto off len) =
-      some ([6] ++ a ++ b ++ data.drop (off - low).toNat ++
-        List.replicate (len.toNat - (data.length - (off - low).toNat)) 0) :=
-  buildOne_crypto_zero_extends low data base off len a b hlow hs hlen ha hb hbeyond
+/-- the documented parameter range of a layout entry: non-negative fields; the wire offset and the
+    share length are representable as varints (true of every QUIC crypto offset) -/
+def EntryInRange (n base : Nat) : QFrame → Prop
+  | .crypto off len => 0 ≤ off ∧ 0 ≤ len ∧ off + (base : Int) ≤ maxVarInt8 ∧ (n : Int) ≤ maxVarInt8
+  | .padding l => 0 ≤ l
+  | .ping => True
+
+/-- QUICFrames.build NEVER PANICS, for ANY layout (tiling or not) applied to ANY share of the CRYPTO
+    stream (shorter than the layout, or empty: PTO probe, retransmission, tail of a multi-datagram
+    ClientHello): it returns a payload that is a sequence of Initial-legal frames, and what it emits
+    is characterised exactly — the entry `{off,len}` becomes one CRYPTO frame at wire offset
+    `off + base` carrying the share bytes `[s, s+ℓ)` with `s = min(off-lowest, n)` and
+    `ℓ = len` if `0 < len ≤ n-s`, else `n-s` (`cryptoSpec`). -/
+theorem quicFrames_never_panics (qfs : List QFrame) (data : List UInt8) (base : Nat)
+    (h : ∀ f ∈ layoutOf qfs, EntryInRange data.length base f) :
+    ∃ p frames, qfBuild qfs data base = .ok p ∧ readFrames p = some frames ∧
+      cryptoOf frames = (layoutOf qfs).flatMap (cryptoSpec (lowestOffset (layoutOf qfs)) data base) := by
+  have hok : ∀ f ∈ layoutOf qfs, FrameOk (lowestOffset (layoutOf qfs)) data.length base f := by
+    intro f hf
+    have := h f hf
+    cases f with
+    | crypto off len =>
+      simp only [EntryInRange] at this
+      simp only [FrameOk]
+      have hlow := (foldl_low_le (layoutOf qfs) 65535).2.1 _ hf
+      exact ⟨hlow, this.2.1, by omega, this.2.2.1, this.2.2.2⟩
+    | padding l => exact this
+    | ping => trivial
+  obtain ⟨p, frames, hp, hr, hc⟩ := buildAll_ok (layoutOf qfs) hok
+  refine ⟨p, frames, ?_, hr, hc⟩
+  simp only [qfBuild]
+  have : (if qfs.isEmpty = true then [QFrame.crypto 0 0] else qfs) = layoutOf qfs := rfl
+  rw [this, hp]
+
+/-- … and NEVER ZERO-EXTENDS: every CRYPTO frame it emits carries a sub-slice of the share, exactly as
+    many bytes as it announces, never reaching beyond the share -/
+theorem quicFrames_no_zero_extension (qfs : List QFrame) (data : List UInt8) (base : Nat)
+    (h : ∀ f ∈ layoutOf qfs, EntryInRange data.length base f) :
+    ∃ p frames, qfBuild qfs data base = .ok p ∧ readFrames p = some frames ∧
+      ∀ c ∈ cryptoOf frames, ∃ s l : Nat, s + l ≤ data.length ∧ c.2 = (data.drop s).take l ∧ c.2.length = l := by
+  obtain ⟨p, frames, hp, hr, hc⟩ := quicFrames_never_panics qfs data base h
+  refine ⟨p, frames, hp, hr, ?_⟩
+  intro c hcm
+  rw [hc] at hcm
+  obtain ⟨f, hf, hcf⟩ := List.mem_flatMap.mp hcm
+  have hin := h f hf
+  have hlow := (foldl_low_le (layoutOf qfs) 65535).2.1 _ hf
+  apply cryptoSpec_subslice (low := lowestOffset (layoutOf qfs)) (base := base) (f := f) _ c hcf
+  cases f with
+  | crypto off len =>
+    simp only [EntryInRange] at hin
+    exact ⟨hlow, hin.2.1, by omega, hin.2.2.1, hin.2.2.2⟩
+  | padding l => exact hin
+  | ping => trivial
+
+/-- exact panic condition of one CRYPTO entry: only an unrepresentable wire offset or a negative
+    Length (both outside the parameter range) — never the contents or the length of the share -/
+theorem quicFrames_panics_iff (low : Int) (data : List UInt8) (base : Nat) (off len : Int)
+    (hlow : low ≤ off) (hn : (data.length : Int) ≤ maxVarInt8) :
+    buildOne low data base (.crypto off len) = none ↔
+      (maxVarInt8 : Int) < (off + (base : Int)) % u64 ∨ len < 0 :=
+  buildOne_crypto_none_iff low data base off len hlow hn
 
 example : qfBuild [.crypto 2 0, .ping, .crypto 0 2] [10, 11, 12] 5 = .ok [6, 7, 1, 12, 1, 6, 5, 2, 10, 11] := by decide
-example : qfBuild [.crypto 0 5] [10, 11, 12] 0 = .ok [6, 0, 5, 10, 11, 12, 0, 0] := by decide   -- zero-extended
-example : qfBuild [.ping, .crypto 4 1] [10, 11, 12] 0 = .panic := by decide
+example : qfBuild [.crypto 0 5] [10, 11, 12] 0 = .ok [6, 0, 3, 10, 11, 12] := by decide     -- clamped, not zero-extended
+example : qfBuild [.ping, .crypto 4 1] [10, 11, 12] 0 = .ok [1, 6, 4, 0] := by decide          -- beyond the share: empty frame
+example : qfBuild [.crypto 0 4, .crypto 4 0] [] 7 = .ok [6, 7, 0, 6, 11, 0] := by decide        -- empty share (PTO probe)
 
 /-! ## QUICRandomFrames / QUICMultiDatagramFrames -/
 
@@ -265,36 +313,86 @@ theorem default_splitter_carries (ops : List SOp) :
   have := h2.inv.drained he
   exact h2.cover i hi0 (by omega)
 
-/-- the state `initialCryptoStream.Write` leaves behind for a complete ClientHello with an SNI host
-    name (findSNIAndECH's answer `env` inside the buffer) satisfies the scrambler invariant -/
-theorem write_establishes_invariant (W : List UInt8) (env : Sni) (herr : env.err = 0)
-    (hsni : 0 ≤ env.sniPos ∧ 0 ≤ env.sniLen ∧ env.sniPos + env.sniLen ≤ W.length)
-    (hech : env.echPos ≤ 0 ∨ env.echPos + 1 ≤ W.length) :
-    ScrInv (write (newInitial true) W env).1 W W.length [] := by
-  have hdiv : 0 ≤ env.sniLen / 2 ∧ env.sniLen / 2 ≤ env.sniLen := by omega
+/-- findSNIAndECH's answer lies inside the buffer -/
+def EnvSane (W : List UInt8) (env : Sni) : Prop :=
+  env.err = 0 ∧
+  (env.sniPos = -1 ∨ (0 ≤ env.sniPos ∧ 0 ≤ env.sniLen ∧ env.sniPos + env.sniLen ≤ W.length)) ∧
+  (env.echPos ≤ 0 ∨ env.echPos + 4 ≤ W.length)
+
+/-- `initialCryptoStream.Write` of a complete ClientHello, for EVERY answer of findSNIAndECH inside the
+    buffer — SNI host name present, absent or empty, ECH present or absent, in any order: it leaves
+    either the scrambler invariant (with every chosen cut NON-EMPTY) or a plain stream; and HasData
+    is true, so the ClientHello will be sent. -/
+theorem write_establishes_invariant (W : List UInt8) (env : Sni) (h : EnvSane W env) :
+    let s := (write (newInitial true) W env).1
+    ((ScrInv s W W.length [] ∧ (s.c0s = -1 ∨ s.c0s < s.c0e) ∧ (s.c1s = -1 ∨ s.c1s < s.c1e) ∧ s.c0s ≠ -1)
+      ∨ BaseRun 0 s W []) ∧ (W ≠ [] → hasData s = true) := by
+  obtain ⟨herr, hsni, hech⟩ := h
+  have hdiv : env.sniLen > 0 → 0 ≤ env.sniLen / 2 ∧ env.sniLen / 2 < env.sniLen := by omega
+  have hne : W ≠ [] → W.isEmpty = false := by intro h; cases W <;> simp_all
+  have base : ∀ (e c0s c0e c1s c1e : Int),
+      BaseRun 0 (CS.mk true W 0 false e c0s c0e c1s c1e) W [] := by
+    intro e c0s c0e c1s c1e
+    exact ⟨⟨by simp, by simp, by simp, by simp⟩, by simp, by intro i h1 h2; simp at h2; omega⟩
+  have scr : ∀ (c0s c0e c1s c1e : Int), (0 ≤ c0s ∧ c0s < c0e ∧ c0e ≤ W.length) →
+      (c1s = -1 ∨ (0 ≤ c1s ∧ c1s < c1e ∧ c1e ≤ W.length)) →
+      let s : CS := CS.mk true W 0 true W.length c0s c0e c1s c1e
+      ((ScrInv s W W.length [] ∧ (s.c0s = -1 ∨ s.c0s < s.c0e) ∧ (s.c1s = -1 ∨ s.c1s < s.c1e) ∧ s.c0s ≠ -1)
+        ∨ BaseRun 0 s W []) ∧ (W ≠ [] → hasData s = true) := by
+    intro c0s c0e c1s c1e h0 h1
+    refine ⟨Or.inl ⟨⟨rfl, rfl, rfl, rfl, Nat.le_refl _, Int.le_refl _, by simp only []; omega, ?_, ?_, by simp, ?_⟩,
+      Or.inr h0.2.1, ?_, by simp only []; omega⟩, ?_⟩
+    · right; simp only []; omega
+    · rcases h1 with h1 | h1
+      · left; exact h1
+      · right; simp only []; omega
+    · intro i hi1 hi2; right; left; exact hi1
+    · rcases h1 with h1 | h1
+      · left; exact h1
+      · right; simp only []; omega
+    · intro hW
+      simp only [hasData, Bool.and_self, Bool.true_and]
+      rw [if_neg (by simp [invalid_eq]; omega)]
+      simp [hne hW]
   unfold write newInitial
   simp only [List.nil_append, Bool.not_true, Bool.or_false, Bool.false_eq_true, if_false, herr,
-    show ¬ ((0 : Nat) = 1) by decide, show ¬ ((0 : Nat) ≠ 0) by decide, if_true]
-  rw [if_neg (by omega)]
-  by_cases hpos : env.echPos > 0
-  · rw [if_pos hpos]
-    simp only []
-    split
-    · refine ⟨rfl, rfl, rfl, rfl, Nat.le_refl _, Int.le_refl _, by simp only []; omega, ?_, ?_, by simp, ?_⟩
-      · simp only []; right; omega
-      · simp only []; right; omega
-      · intro i h1 h2; right; left; exact h1
-    · refine ⟨rfl, rfl, rfl, rfl, Nat.le_refl _, Int.le_refl _, by simp only []; omega, ?_, ?_, by simp, ?_⟩
-      · simp only []; right; omega
-      · simp only []; right; omega
-      · intro i h1 h2; right; left; exact h1
-  · rw [if_neg hpos]
-    simp only []
-    rw [if_neg (by simp)]
-    refine ⟨rfl, rfl, rfl, rfl, Nat.le_refl _, Int.le_refl _, by simp only []; omega, ?_, ?_, by simp, ?_⟩
-    · simp only []; right; omega
-    · simp only []; left; exact invalid_eq
-    · intro i h1 h2; right; left; exact h1
+    show ¬ ((0 : Nat) = 1) by decide, show ¬ ((0 : Nat) ≠ 0) by decide, if_true, invalid_eq]
+  by_cases hnone : env.sniPos = -1 ∧ env.echPos = -1
+  · rw [if_pos hnone]
+    exact ⟨Or.inr (base _ _ _ _ _), fun hW => by simp [hasData, hne hW]⟩
+  · rw [if_neg hnone]
+    by_cases hA : env.sniPos ≠ -1 ∧ env.sniLen > 0
+    · have hs : 0 ≤ env.sniPos ∧ 0 ≤ env.sniLen ∧ env.sniPos + env.sniLen ≤ W.length := by
+        rcases hsni with h | h
+        · exact absurd h hA.1
+        · exact h
+      have hd := hdiv hA.2
+      by_cases hB : env.echPos > 0
+      · simp only [if_pos hA, if_pos hB]
+        have hx : ¬ (env.sniPos + env.sniLen / 2 = -1) := by omega
+        simp only [if_neg hx, if_neg (show ¬ (env.sniPos + env.sniLen / 2 = -1 ∧ env.echPos + 1 = -1) by omega)]
+        split
+        · exact scr _ _ _ _ (by omega) (Or.inr (by omega))
+        · exact scr _ _ _ _ (by omega) (Or.inr (by omega))
+      · simp only [if_pos hA, if_neg hB]
+        have hx : ¬ (env.sniPos + env.sniLen / 2 = -1) := by omega
+        simp only [if_neg hx]
+        split
+        · rename_i h; exact absurd h.1 hx
+        · split
+          · rename_i h; exact absurd rfl h.1
+          · exact scr _ _ _ _ (by omega) (Or.inl rfl)
+    · by_cases hB : env.echPos > 0
+      · simp only [if_neg hA, if_pos hB]
+        simp only [if_true]
+        split
+        · rename_i h; have := h.2; omega
+        · split
+          · rename_i h; exact absurd rfl h.1
+          · exact scr (env.echPos + 1) (min (env.echPos + 1 + 16) W.length) (-1) (-1) (by omega) (Or.inl rfl)
+      · simp only [if_neg hA, if_neg hB]
+        rw [if_pos (by trivial)]
+        exact ⟨Or.inr (base _ _ _ _ _), fun hW => by simp [hasData, hne hW]⟩
 
 /-- Scrambler (`initialCryptoStream.PopCryptoFrame`): from any state in which the whole stream `W` is
     buffered, `[0,E)` is the ClientHello and the (up to two) cuts lie inside `[0,E]` — overlapping,
@@ -321,6 +419,36 @@ theorem scrambler_carries (W : List UInt8) (E : Nat) (s : CS) (budgets : List In
       intro he i hi0 hi
       have := h2.1.inv.drained he
       exact h2.1.cover i hi0 (by omega)
+
+/-- End to end, for EVERY complete ClientHello — with or without a usable SNI cut (no SNI extension, no
+    host_name entry, an empty host name), with or without ECH — and every sequence of budgets: after
+    `Write`, HasData is true (for a non-empty ClientHello), no pop panics, every frame carries the
+    stream bytes of its offset, and once scrambling is over (immediately, if there was nothing to cut)
+    everything up to the write offset has been released — the whole ClientHello once the buffer is
+    drained. -/
+theorem scrambler_carries_from_write (W : List UInt8) (env : Sni) (h : EnvSane W env) (budgets : List Int) :
+    (W ≠ [] → hasData (write (newInitial true) W env).1 = true) ∧
+    ∃ s' frames, runOps (newInitial true) (SOp.write W env :: budgets.map SOp.pop) [] = some (s', frames) ∧
+      (∀ f ∈ frames, Truthful W f) ∧
+      (s'.scramble = false →
+        (∀ i, 0 ≤ i → i < s'.writeOffset → Covered frames i) ∧
+        (s'.buf = [] → ∀ i : Int, 0 ≤ i → i < W.length → Covered frames i)) := by
+  obtain ⟨hinv, hhas⟩ := write_establishes_invariant W env h
+  refine ⟨hhas, ?_⟩
+  simp only [runOps]
+  rcases hinv with ⟨hscr, _⟩ | hbase
+  · obtain ⟨s', frames, h1, h2, h3⟩ := scrambler_carries W W.length _ budgets hscr
+    exact ⟨s', frames, h1, h2, fun hs => ⟨(h3 hs).2.1, (h3 hs).2.2⟩⟩
+  · obtain ⟨s', frames, h1, h2⟩ := baseRun_ops (budgets.map SOp.pop) 0 _ W [] hbase
+    rw [written_pops, List.append_nil] at h2
+    refine ⟨s', frames, h1, h2.truthful, fun _ => ⟨h2.cover, ?_⟩⟩
+    intro he i hi0 hi
+    have := h2.inv.drained he
+    exact h2.cover i hi0 (by omega)
+
+/-- a ClientHello with an ECH extension at 47 and no SNI (the former finding): sane, so covered -/
+example : EnvSane (List.replicate 365 1) ⟨-1, 0, 47, 0⟩ :=
+  ⟨rfl, Or.inl rfl, Or.inr (by rw [List.length_replicate]; decide)⟩
 
 /-- hypotheses of `scrambler_carries` are satisfiable: a 40 byte ClientHello, SNI cut [10,20), ECH cut [15,31) -/
 def exampleState : CS :=
